@@ -2,6 +2,12 @@ package main
 
 import (
 	"github.com/jsightapi/jsight-schema-go-library/bytes"
+
+	"github.com/jsightapi/jsight-api-go-library/directive"
 )
+
+func directiveName(k int) string { return directive.Enumeration(k).String() }
+
+func directiveOf(k int) directive.Enumeration { return directive.Enumeration(k) }
 
 func bytesIndex(i uint) bytes.Index { return bytes.Index(i) }
